@@ -327,17 +327,13 @@ pub fn c18(em: &mut Emit, thorough: bool, _seed: u64) {
     // --- non-regular files are refused
     {
         let d = std::fs::File::open(tmp.path()).unwrap();
-        em.pred_only(
-            "new(directory)",
-            &pred(Crf::new(d, HeaderMap::new()).is_err(), || "directory accepted".into()),
-            "kind:dir",
-        );
+        let r = Crf::new(d, HeaderMap::new()).is_err();
+        em.case("FILENEW kind=directory", if r { "REFUSED" } else { "ACCEPTED" },
+            &pred(r, || "directory accepted".into()), "kind:dir");
         let n = std::fs::File::open("/dev/null").unwrap();
-        em.pred_only(
-            "new(/dev/null)",
-            &pred(Crf::new(n, HeaderMap::new()).is_err(), || "char device accepted".into()),
-            "kind:chardev",
-        );
+        let r = Crf::new(n, HeaderMap::new()).is_err();
+        em.case("FILENEW kind=chardev", if r { "REFUSED" } else { "ACCEPTED" },
+            &pred(r, || "char device accepted".into()), "kind:chardev");
         let fifo = tmp.path().join("fifo");
         let c = std::ffi::CString::new(fifo.to_str().unwrap()).unwrap();
         if unsafe { libc::mkfifo(c.as_ptr(), 0o600) } == 0 {
@@ -346,21 +342,14 @@ pub fn c18(em: &mut Emit, thorough: bool, _seed: u64) {
                 .custom_flags(libc::O_NONBLOCK)
                 .open(&fifo)
                 .unwrap();
-            em.pred_only(
-                "new(fifo)",
-                &pred(Crf::new(f, HeaderMap::new()).is_err(), || "fifo accepted".into()),
-                "kind:fifo",
-            );
+            let r = Crf::new(f, HeaderMap::new()).is_err();
+            em.case("FILENEW kind=fifo", if r { "REFUSED" } else { "ACCEPTED" },
+                &pred(r, || "fifo accepted".into()), "kind:fifo");
         }
         let reg = tmp.path().join("f1");
-        em.pred_only(
-            "new(regular)",
-            &pred(
-                Crf::new(std::fs::File::open(reg).unwrap(), HeaderMap::new()).is_ok(),
-                || "regular file refused".into(),
-            ),
-            "kind:regular",
-        );
+        let r = Crf::new(std::fs::File::open(reg).unwrap(), HeaderMap::new()).is_ok();
+        em.case("FILENEW kind=regular", if r { "ACCEPTED" } else { "REFUSED" },
+            &pred(r, || "regular file refused".into()), "kind:regular");
     }
     // --- through `serve` with Range headers, also with truncation => aborted body
     for &size in &[65537u64, 200001] {
@@ -379,10 +368,13 @@ pub fn c18(em: &mut Emit, thorough: bool, _seed: u64) {
                     .body(())
                     .unwrap();
                 let p2 = path.clone();
-                let (status, cr, recs) = rt.block_on(async move {
+                let file_etag = crf.etag().map(|t| t.as_bytes().to_vec());
+                let file_mtime = crf.last_modified();
+                let (status, cr, recs, head) = rt.block_on(async move {
                     tokio::spawn(async move {
                         let resp = http_serve::serve(crf, &req);
                         let status = resp.status().as_u16();
+                        let head = canon_headers(resp.headers());
                         let cr = resp
                             .headers()
                             .get("content-range")
@@ -413,11 +405,31 @@ pub fn c18(em: &mut Emit, thorough: bool, _seed: u64) {
                                 Poll::Pending => recs.push(Out::Pending),
                             }
                         }
-                        (status, cr, recs)
+                        (status, cr, recs, head)
                     })
                     .await
                     .unwrap()
                 });
+                if !truncate {
+                    // the response head of `serve` over the real file entity against the model
+                    // given the file's metadata (len, ETag, mtime) as the entity
+                    let mut q = HReq::get();
+                    q.range = Some(range.as_bytes().to_vec());
+                    let mut e = HEntity::new(size);
+                    e.etag = file_etag.clone();
+                    e.mtime = file_mtime;
+                    let (hdrs, now) = head;
+                    em.case(
+                        &serve_line(&q, &e, now),
+                        &format!(
+                            "{} hdrs={} plan=unknown:file calls=",
+                            status,
+                            hdrs.iter().map(|(n, v)| format!("{}={}", n, v)).collect::<Vec<_>>().join(",")
+                        ),
+                        "ok",
+                        "serve-head",
+                    );
+                }
                 let body: Vec<u8> = recs
                     .iter()
                     .filter_map(|r| if let Out::Data(d) = r { Some(d.clone()) } else { None })
